@@ -478,10 +478,21 @@ def run(ctx, prop):
                     print(f'SELFTEST {prop} benign {name}: patch does not apply to the current tree (skipped)')
                     continue
                 c5 = Ctx(prop, Corpus(tmp), tier='thorough', quiet=True, use_known=True)
+                expected_undecided = []
+                mpath = os.path.join(bdir, name, 'meta.json')
+                if os.path.exists(mpath):
+                    try:
+                        expected_undecided = json.load(open(mpath)).get('expected_undecided', [])
+                    except Exception:
+                        expected_undecided = []
                 try:
                     importlib.import_module(f'sa.rules.{prop.lower()}').run(c5)
                 except AnalysisError as e:
-                    raise AnalysisError(f'self-test {prop}: analysis gives up on the behaviour-preserving refactoring benign/{name}: {e}')
+                    if prop in expected_undecided and not c5.failures:
+                        stats['benign_undecided'] = stats.get('benign_undecided', 0) + 1
+                        continue  # recorded: the refactoring removes an anchor this check names; "cannot decide" is the honest answer
+                    if not c5.failures:
+                        raise AnalysisError(f'self-test {prop}: analysis gives up on the behaviour-preserving refactoring benign/{name}: {e}')
                 if c5.failures:
                     o = c5.failures[0]
                     raise AnalysisError(f'self-test {prop}: FALSE ALARM on the behaviour-preserving refactoring benign/{name}: {o.rule} {o.site} {o.what}')
